@@ -111,8 +111,21 @@ def csch(ctx, z): return ctx.one / ctx.sinh(z)
 def _reciprocal(ctx, z):
     # 1/z with twice the working precision: the inverse functions are
     # ill-conditioned next to their branch points (z = +-1 or +-i), where
-    # the rounding error of 1/z would be magnified
-    return ctx.fdiv(ctx.one, z, prec=2*ctx.prec)
+    # the rounding error of 1/z would be magnified.  An exact argument can
+    # lie closer to a branch point than 2**-prec: then as many more bits
+    # are needed as the distance has leading zeros
+    if ctx._fixed_precision:
+        return ctx.one / z
+    prec = 2*ctx.prec
+    if ctx._fixed_precision:
+        return ctx.one / z
+    prec = 2*ctx.prec
+    if not (ctx.isinf(z) or ctx.isnan(z)) and abs(ctx.mag(z)) <= 1:
+        for c in (ctx.one, -ctx.one, ctx.j, -ctx.j):
+            d = ctx.fsub(z, c, exact=True)
+            if d:
+                prec = max(prec, 2*ctx.prec - ctx.mag(d))
+    return ctx.fdiv(ctx.one, z, prec=prec)
 
 @defun_wrapped
 def acot(ctx, z):
